@@ -668,6 +668,16 @@ fn main() {
     if std::env::args().nth(1).as_deref() == Some("--worker") {
         worker();
     }
+    // `c05 --dump-input <replay.json> <out-file>`: materialise the mutated input of a replay file
+    if std::env::args().nth(1).as_deref() == Some("--dump-input") {
+        let a: Vec<String> = std::env::args().collect();
+        let v: Value = serde_json::from_str(&std::fs::read_to_string(&a[2]).expect("replay")).expect("json");
+        let c: Case = serde_json::from_value(v["case"].clone()).expect("case");
+        let seeds = all_seeds();
+        std::fs::write(&a[3], apply(&seeds[c.seed].bytes, &c.m)).expect("write");
+        println!("{} {} -> {}", c.format, seeds[c.seed].name, a[3]);
+        return;
+    }
     let (check, _a) = Check::new("C05", "exploration");
     check.set_rule(
         "valid seeds (7 MPQ archives V1..V4 with attributes/encryption/compressed tables, COPY and BSD0 patch files, compressed streams for 11 method bytes, and 3..10 files each for M2, skin, anim, ADT, WMO root/group, BLP, DBC, WDT, WDL built with the crates' own writers) × deterministic structured mutation: \
